@@ -189,7 +189,7 @@ func checkC07(p *Prog, l *Ledger) {
 			case *ssa.MapUpdate:
 				counts["P6"]++
 				key := mk(fk + "#mapstore(" + describe(x.Map) + ")")
-				if ok, why := mapNonNil(p, x.Map); ok {
+				if ok, why := mapNonNil(p, x.Map, in.Block()); ok {
 					l.Discharge("C07/P6-nil", key, p.InstrPos(in), why, true)
 				} else {
 					report("C07/P6-nil", key, p.InstrPos(in), "store into a map that is not provably made: "+why)
@@ -461,7 +461,7 @@ func pathSensitiveIndexProof(p *Prog, in ssa.Instruction) (bool, string) {
 // mapNonNil: the map operand of a store is a fresh make, the Values field of an Environment (made by
 // both constructors, checked separately), or the payload of a successful type assertion / type switch
 // (the universe only contains made maps: checked by checkEnvConstruction's sibling below).
-func mapNonNil(p *Prog, m ssa.Value) (bool, string) {
+func mapNonNil(p *Prog, m ssa.Value, at *ssa.BasicBlock) (bool, string) {
 	switch x := m.(type) {
 	case *ssa.MakeMap:
 		return true, "fresh make"
@@ -469,6 +469,24 @@ func mapNonNil(p *Prog, m ssa.Value) (bool, string) {
 		if ta, ok := x.Tuple.(*ssa.TypeAssert); ok && x.Index == 0 {
 			_ = ta
 			return mapsInUniverseAreMade(p)
+		}
+		// the map a helper hands back together with an error / a stop signal, used where that is known to be nil:
+		// what the helper returns on those paths
+		if vals, ok := correlatedReturns(p, x, at); ok && len(vals) > 0 {
+			for _, v := range vals {
+				in, _ := v.(ssa.Instruction)
+				var blk *ssa.BasicBlock
+				if in != nil {
+					blk = in.Block()
+				}
+				if blk == nil {
+					return false, "helper result " + describe(v) + " has no recognised provenance"
+				}
+				if ok, why := mapNonNil(p, v, blk); !ok {
+					return false, why
+				}
+			}
+			return true, "result of a helper on the paths where its error/stop result is nil: " + "a made map or the payload of a successful type test"
 		}
 	case *ssa.TypeAssert:
 		return mapsInUniverseAreMade(p)
@@ -478,10 +496,13 @@ func mapNonNil(p *Prog, m ssa.Value) (bool, string) {
 			if tn == "environment.Environment" && f == "Values" {
 				return true, "Environment.Values is made by both constructors (C07/P6-nil env-construction)"
 			}
+			if ok, why := fieldAlwaysMadeMap(p, tn, f); ok {
+				return true, why
+			}
 		}
 	case *ssa.Phi:
 		for _, e := range x.Edges {
-			if ok, why := mapNonNil(p, e); !ok {
+			if ok, why := mapNonNil(p, e, at); !ok {
 				return false, why
 			}
 		}
@@ -492,8 +513,8 @@ func mapNonNil(p *Prog, m ssa.Value) (bool, string) {
 
 func mapsInUniverseAreMade(p *Prog) (bool, string) {
 	u := p.BuildUniverse()
-	var ok func(v ssa.Value, seen map[ssa.Value]bool) bool
-	ok = func(v ssa.Value, seen map[ssa.Value]bool) bool {
+	var ok func(v ssa.Value, at *ssa.BasicBlock, seen map[ssa.Value]bool) bool
+	ok = func(v ssa.Value, at *ssa.BasicBlock, seen map[ssa.Value]bool) bool {
 		if seen[v] {
 			return true
 		}
@@ -502,13 +523,28 @@ func mapsInUniverseAreMade(p *Prog) (bool, string) {
 		case *ssa.MakeMap:
 			return true
 		case *ssa.Extract: // payload of a type test on a value that is itself a universe member (induction)
-			_, isTA := x.Tuple.(*ssa.TypeAssert)
-			return isTA && x.Index == 0
+			if _, isTA := x.Tuple.(*ssa.TypeAssert); isTA {
+				return x.Index == 0
+			}
+			// … or what a helper returned on the paths where its error / stop result is nil (the use is guarded by that)
+			if vals, isCall := correlatedReturns(p, x, at); isCall && len(vals) > 0 {
+				for _, r := range vals {
+					in, _ := r.(ssa.Instruction)
+					if in == nil || in.Block() == nil {
+						return false
+					}
+					if !ok(r, in.Block(), seen) {
+						return false
+					}
+				}
+				return true
+			}
+			return false
 		case *ssa.TypeAssert:
 			return true
 		case *ssa.Phi:
-			for _, e := range x.Edges {
-				if !ok(e, seen) {
+			for i, e := range x.Edges {
+				if !ok(e, x.Block().Preds[i], seen) {
 					return false
 				}
 			}
@@ -520,7 +556,7 @@ func mapsInUniverseAreMade(p *Prog) (bool, string) {
 		if pr.Kind != "object" {
 			continue
 		}
-		if !ok(pr.In.X, map[ssa.Value]bool{}) {
+		if !ok(pr.In.X, pr.In.Block(), map[ssa.Value]bool{}) {
 			return false, "object value produced at " + p.InstrPos(pr.In) + " may be a nil map"
 		}
 	}
@@ -538,8 +574,15 @@ func checkEvalNeverNilSignal(p *Prog, l *Ledger) {
 	n := 0
 	bad := 0
 	helperSeen := map[*ssa.Function]bool{}
-	var check func(v ssa.Value, seen map[ssa.Value]bool) bool
-	check = func(v ssa.Value, seen map[ssa.Value]bool) bool {
+	paramSeen := map[*ssa.Parameter]bool{}
+	var check func(v ssa.Value, at *ssa.BasicBlock, seen map[ssa.Value]bool) bool
+	blockOf := func(v ssa.Value, dflt *ssa.BasicBlock) *ssa.BasicBlock {
+		if in, ok := v.(ssa.Instruction); ok && in.Block() != nil {
+			return in.Block()
+		}
+		return dflt
+	}
+	check = func(v ssa.Value, at *ssa.BasicBlock, seen map[ssa.Value]bool) bool {
 		if seen[v] {
 			return true
 		}
@@ -551,21 +594,22 @@ func checkEvalNeverNilSignal(p *Prog, l *Ledger) {
 			if c, ok := x.Tuple.(*ssa.Call); ok && c.Call.StaticCallee() == ev && x.Index == 1 {
 				return true
 			}
-			// the signal of a helper eval delegates to (evalFor …): every return of the helper must qualify in turn
+			// the signal of a helper eval delegates to (evalFor …): every return of the helper that can have produced the
+			// value used here (those consistent with the tests the caller made on the helper's other results) must qualify
 			if c, ok := x.Tuple.(*ssa.Call); ok {
 				if g := c.Call.StaticCallee(); g != nil && g != ev && p.InModule(g) && g.Blocks != nil && !helperSeen[g] {
 					helperSeen[g] = true
 					defer delete(helperSeen, g)
-					all, any := true, false
-					instrsOf(g, func(in ssa.Instruction) {
-						if ret, ok := in.(*ssa.Return); ok && x.Index < len(ret.Results) {
-							any = true
-							if !check(ret.Results[x.Index], map[ssa.Value]bool{}) {
-								all = false
-							}
+					vals, ok := correlatedReturns(p, x, at)
+					if !ok || len(vals) == 0 {
+						return false
+					}
+					for _, r := range vals {
+						if !check(r, blockOf(r, g.Blocks[0]), map[ssa.Value]bool{}) {
+							return false
 						}
-					})
-					return all && any
+					}
+					return true
 				}
 			}
 		case *ssa.Call:
@@ -577,7 +621,7 @@ func checkEvalNeverNilSignal(p *Prog, l *Ledger) {
 				instrsOf(g, func(in ssa.Instruction) {
 					if ret, ok := in.(*ssa.Return); ok && len(ret.Results) == 1 {
 						any = true
-						if !check(ret.Results[0], map[ssa.Value]bool{}) {
+						if !check(ret.Results[0], in.Block(), map[ssa.Value]bool{}) {
 							all = false
 						}
 					}
@@ -585,12 +629,47 @@ func checkEvalNeverNilSignal(p *Prog, l *Ledger) {
 				return all && any
 			}
 		case *ssa.Phi:
-			for _, e := range x.Edges {
-				if !check(e, seen) {
+			for i, e := range x.Edges {
+				if !check(e, x.Block().Preds[i], seen) {
 					return false
 				}
 			}
 			return true
+		case *ssa.Parameter:
+			// a helper handing back the signal it was given (interrupted(signal)): every caller passes a qualifying value
+			fn := x.Parent()
+			if fn == nil || fn == ev || paramSeen[x] {
+				return false
+			}
+			idx := -1
+			for i, q := range fn.Params {
+				if q == x {
+					idx = i
+				}
+			}
+			node := p.CG().Nodes[fn]
+			if idx < 0 || node == nil || len(node.In) == 0 {
+				return false
+			}
+			paramSeen[x] = true
+			defer delete(paramSeen, x)
+			for _, e := range node.In {
+				if e.Site == nil || e.Site.Common().StaticCallee() != fn || idx >= len(e.Site.Common().Args) {
+					return false
+				}
+				if !check(e.Site.Common().Args[idx], e.Site.Block(), map[ssa.Value]bool{}) {
+					return false
+				}
+			}
+			return true
+		}
+		// a value tested non-nil on the way to `at`
+		for _, g := range GuardsAt(at) {
+			if b, ok := g.Cond.(*ssa.BinOp); ok && (b.X == v && isNilConst(b.Y) || b.Y == v && isNilConst(b.X)) {
+				if (b.Op == token.NEQ && g.Truth) || (b.Op == token.EQL && !g.Truth) {
+					return true
+				}
+			}
 		}
 		return false
 	}
@@ -608,7 +687,7 @@ func checkEvalNeverNilSignal(p *Prog, l *Ledger) {
 				}
 			}
 		}
-		if !guardedNonNil && !check(ret.Results[1], map[ssa.Value]bool{}) {
+		if !guardedNonNil && !check(ret.Results[1], in.Block(), map[ssa.Value]bool{}) {
 			bad++
 			l.Violate("C07/P6-nil", fmt.Sprintf("%s#return-signal(%s)", p.FuncKey(ev), describe(ret.Results[1])), p.InstrPos(in), "eval may return a nil control-flow signal here; every caller dereferences signal.Type")
 		}
@@ -897,7 +976,7 @@ func structuralDescent(p *Prog, caller *ssa.Function, site ssa.CallInstruction, 
 	} else {
 		// first parameter whose type is (or is a slice/pointer of) an ast node type
 		for i, prm := range callee.Params {
-			if mentionsAST(prm.Type()) && i < len(args) {
+			if (mentionsAST(prm.Type()) || carriesAST(prm.Type())) && i < len(args) {
 				measure = args[i]
 				break
 			}
@@ -977,6 +1056,18 @@ func structuralDescent(p *Prog, caller *ssa.Function, site ssa.CallInstruction, 
 				}
 			}
 			if st == nil {
+				// a small struct made to pass several values along (node, callee, arguments): the node it carries
+				for _, r := range *x.Referrers() {
+					fa, ok := r.(*ssa.FieldAddr)
+					if !ok || !mentionsAST(derefT(fa.Type())) {
+						continue
+					}
+					for _, r2 := range *fa.Referrers() {
+						if s, ok := r2.(*ssa.Store); ok && s.Addr == ssa.Value(fa) {
+							return derive(s.Val, d+1, seen)
+						}
+					}
+				}
 				return 0, "", false, "argument is a fresh object"
 			}
 			return derive(st.Val, d+1, seen)
@@ -1137,6 +1228,28 @@ func storedTypes(p *Prog, u *Universe, key string, seen map[string]bool) (map[st
 		return nil, false
 	}
 	return out, true
+}
+
+// carriesAST: a (pointer to a) struct of this module with a field that is an AST node — a bundle of values passed
+// between the phases of one clause.
+func carriesAST(t types.Type) bool {
+	if pt, ok := t.Underlying().(*types.Pointer); ok {
+		t = pt.Elem()
+	}
+	nt, ok := t.(*types.Named)
+	if !ok || nt.Obj().Pkg() == nil || nt.Obj().Pkg().Name() == "ast" {
+		return false
+	}
+	st, ok := nt.Underlying().(*types.Struct)
+	if !ok {
+		return false
+	}
+	for i := 0; i < st.NumFields(); i++ {
+		if mentionsAST(st.Field(i).Type()) {
+			return true
+		}
+	}
+	return false
 }
 
 func mentionsAST(t types.Type) bool {
@@ -1321,4 +1434,50 @@ func typeDirectedDescent(fn *ssa.Function, site ssa.CallInstruction) (bool, stri
 		}
 	}
 	return false, ""
+}
+
+// fieldAlwaysMadeMap: a map-typed field of a module struct that is set to a freshly made map wherever a value of the
+// struct is created (every allocation of the struct stores the field) and is never set to anything else.
+func fieldAlwaysMadeMap(p *Prog, typeName, field string) (bool, string) {
+	allocs, complete, otherStores := 0, true, false
+	for _, fn := range p.ModuleFuncs() {
+		instrsOf(fn, func(in ssa.Instruction) {
+			switch x := in.(type) {
+			case *ssa.Alloc:
+				if typeStr(derefT(x.Type())) != typeName {
+					return
+				}
+				allocs++
+				set := false
+				for _, r := range *x.Referrers() {
+					if fa, ok := r.(*ssa.FieldAddr); ok && fieldName(fa.X.Type(), fa.Field) == field {
+						for _, r2 := range *fa.Referrers() {
+							if st, ok := r2.(*ssa.Store); ok && st.Addr == ssa.Value(fa) {
+								if _, made := st.Val.(*ssa.MakeMap); made {
+									set = true
+								}
+							}
+						}
+					}
+				}
+				if !set {
+					complete = false
+				}
+			case *ssa.Store:
+				fa, ok := x.Addr.(*ssa.FieldAddr)
+				if !ok {
+					return
+				}
+				if tn, f := structKey(fa.X.Type(), fa.Field); tn == typeName && f == field {
+					if _, made := x.Val.(*ssa.MakeMap); !made {
+						otherStores = true
+					}
+				}
+			}
+		})
+	}
+	if allocs == 0 || !complete || otherStores {
+		return false, ""
+	}
+	return true, fmt.Sprintf("%s.%s is set to a fresh map at each of the %d places a %s is created and never to anything else", typeName, field, allocs, typeName)
 }
